@@ -154,6 +154,6 @@ if __name__ == "__main__":
         for r in ex.map(run_variant, sites):
             print("%-58s %-9s %s   | %s" % (r["name"], r["status"], ",".join(r["hits"]), r["new"].strip()[:90]), flush=True)
             res.append(r)
-    json.dump(res, open(os.path.join(VERIF, "notes", "sweep_%s.json" % kind), "w"), indent=1)
+    json.dump(res, open(os.path.join(VERIF, "notes", "sweep_%s%s.json" % (kind, ".part" if len(sys.argv) > 3 else "")), "w"), indent=1)
     for i in range(1, jobs):
         shutil.rmtree("/var/tmp/verif-sweep-target-%d" % i, ignore_errors=True)
